@@ -9,8 +9,15 @@ AST nodes (tuples):
  ("slice",a,i,j,k) ("fun",[(name,default|None)],body) ("app",f,[pos],[(name,e)],tailstrict)
  ("obj",[(name,e)] locals,[(cond,msg|None)] asserts,[(name_expr,vis,plus,body)] fields)
  ("error",e) ("assert",c,m|None,rest) ("trace",label,e) ("len",e) ("type",e)
+ ("std",name,[args],uid)   a call of the native builtin std.<name>; Sem evaluates its reference
+                           definition (vlib/stdref.py)
 """
 import json
+
+try:
+    from vlib import stdref
+except ImportError:            # imported as a top-level module
+    import stdref
 
 UNOPS = {"-": "UNeg", "+": "UPlus", "!": "UNot", "~": "UBitNot"}
 BINOPS = {"*": "BMul", "/": "BDiv", "%": "BMod", "+": "BAdd", "-": "BSub", "<<": "BShl", ">>": "BShr",
@@ -97,6 +104,8 @@ def to_coq(e, names=None):
         call = ("app", ("var", fv), [("var", xv)], [], False)
         comp = ("comp", call, [("for", xv, e[2])]) if t == "stdmap" else ("comp", ("var", xv), [("for", xv, e[2]), ("if", call)])
         return r(("local", [(fv, e[1])], comp))
+    if t == "std":
+        return r(stdref.definition(e[1], e[2], e[3]))
     if t == "error":
         return f"(EError {r(e[1])})"
     if t == "assert":
@@ -186,6 +195,8 @@ def to_js(e, named_calls=False):
         return f"std.map({r(e[1])}, {r(e[2])})"
     if t == "stdfilter":
         return f"std.filter({r(e[1])}, {r(e[2])})"
+    if t == "std":
+        return stdref.render(e[1], [r(x) for x in e[2]], named_calls)
     if t == "error":
         return f"error {p(e[1])}"
     if t == "assert":
@@ -249,8 +260,9 @@ class ProgGen:
     erroring / ill-typed term is produced; 'bombs' (errors / self-dependent values) are
     planted in positions the semantics never needs."""
 
-    def __init__(self, rng, p_err=0.04, p_bomb=0.12, max_depth=5):
+    def __init__(self, rng, p_err=0.04, p_bomb=0.12, max_depth=5, stdlib=0.0):
         self.rng = rng
+        self.stdlib = stdlib      # probability of a native standard-library call per node (vlib/stdref.py)
         self.p_err = p_err
         self.p_bomb = p_bomb
         self.max_depth = max_depth
@@ -462,6 +474,10 @@ class ProgGen:
             return self.lit(ty)
         if vs and r.chance(0.15):
             return ("var", r.choice(vs))
+        if self.stdlib and r.chance(self.stdlib):
+            g = self.gen_std(ty, env, d)
+            if g is not None:
+                return g
         if r.chance(0.35):
             g = self.generic(ty, env, d)
             if g is not None:
@@ -721,6 +737,200 @@ class ProgGen:
         self.note("hof")
         return ("local", [(o, obj)], ("app", ("index", ext, ("str", "m")), [sub()], [], False))
 
+    # ---- native standard-library calls (Sem runs the reference definition)
+    def callback(self, ptypes, rty, env, d):
+        """a function literal that uses every parameter (so that the native builtin and the reference
+        definition need the same elements), closes over the environment, and sometimes carries extra
+        defaulted parameters that refer to the earlier ones"""
+        r = self.rng
+        ps = [self.fresh("c") for _ in ptypes]
+        sub = lambda t: self.gen(t, env, max(d - 2, 0))  # noqa
+
+        def use(i):
+            v, t = ("var", ps[i]), ptypes[i]
+            if t == rty:
+                return v
+            if rty == NUM:
+                return ("len", v) if t != BOOL else ("if", v, ("num", 1), ("num", 0))
+            if rty == STR:
+                return ("bin", "+", ("str", ""), v) if t in (NUM, BOOL) else ("type", v)
+            if rty == BOOL:
+                return {NUM: ("bin", ">", v, ("num", 1)), STR: ("bin", "<", v, ("str", "b"))}.get(
+                    t, ("bin", ">", ("len", v), ("num", 1)))
+            if rty[0] == "arr":
+                return ("arr", [v]) if rty[1] == t else ("arr", [])
+            return None
+        parts = [use(i) for i in range(len(ps))]
+        if any(x is None for x in parts):
+            return None
+        if rty == NUM:
+            body = parts[0]
+            for x in parts[1:]:
+                body = ("bin", r.choice(["+", "-", "*"]), body, x)
+            if r.chance(0.5):
+                body = ("bin", r.choice(["+", "-"]), body, sub(NUM))
+        elif rty == STR:
+            body = parts[0]
+            for x in parts[1:]:
+                body = ("bin", "+", body, x)
+            if r.chance(0.4):
+                body = ("bin", "+", body, sub(STR))
+        elif rty == BOOL:
+            body = parts[0]
+            for x in parts[1:]:
+                body = ("bin", r.choice(["==", "!="]), body, x)
+        else:
+            body = parts[0]
+            for x in parts[1:]:
+                body = ("bin", "+", body, x)
+            if r.chance(0.4):
+                body = ("bin", "+", body, ("arr", [self.gen(rty[1], env, 0)]))
+        params = [(n, None) for n in ps]
+        if r.chance(0.25):
+            # defaulted extra parameter referring to the first one; shadows nothing, never supplied
+            k = self.fresh("k")
+            params.append((k, ("var", ps[0])))
+            if ptypes[0] == rty and rty in (NUM, STR) or (rty[0] == "arr" and ptypes[0] == rty):
+                body = ("bin", "+", body, ("var", k))
+        self.note("std:callback")
+        return ("fun", params, body)
+
+    def gen_std(self, ty, env, d):
+        r = self.rng
+        sub = lambda t: self.gen(t, env, d - 1)  # noqa
+        small = lambda: ("num", r.below(5))  # noqa
+        A_N, A_S = T_arr(NUM), T_arr(STR)
+        cand = []
+        if ty == NUM:
+            cand = ["foldl", "foldr", "count", "sum", "max", "min", "abs", "sign", "mod", "get", "len_of_arr", "idx_of_arr"]
+        elif ty == BOOL:
+            cand = ["startsWith", "endsWith", "isX", "xor", "xnor", "equals", "assertEqual", "objectHasAll"]
+        elif ty == STR:
+            cand = ["join", "lines", "substr", "foldl_str", "repeat_str", "get_str"]
+        elif ty == A_N:
+            cand = ["makeArray", "range", "mapWithIndex", "reverse", "filterMap", "flattenArrays", "removeAt", "find",
+                    "repeat", "slice", "flatMap", "map", "filter", "foldl_arr"]
+        elif ty == A_S:
+            cand = ["stringChars", "reverse", "removeAt", "repeat", "slice", "map_str", "filter"]
+        if not cand:
+            return None
+        c = r.choice(cand)
+        self.counter += 1
+        u = self.counter
+        mk = lambda name, args: ("std", name, args, u)  # noqa
+        self.note("std:" + c)
+        if c in ("foldl", "foldr"):
+            et = r.choice([NUM, STR])
+            order = [NUM, et] if c == "foldl" else [et, NUM]
+            cb = self.callback(order, NUM, env, d)
+            return cb and mk(c, [cb, sub(T_arr(et)), sub(NUM)])
+        if c == "foldl_str":
+            return self._fold_str(env, d, mk)
+        if c == "foldl_arr":
+            cb = self.callback([A_N, NUM], A_N, env, d)
+            return cb and mk(r.choice(["foldl"]), [cb, sub(A_N), ("arr", [])])
+        if c == "count":
+            t = r.choice([NUM, STR])
+            return mk("count", [sub(T_arr(t)), sub(t)])
+        if c == "sum":
+            return mk("sum", [sub(A_N)])
+        if c in ("max", "min", "mod"):
+            b = sub(NUM) if c != "mod" else ("num", r.choice([1, 2, 3, 5, -2]))
+            return mk(c, [sub(NUM), b])
+        if c in ("abs", "sign"):
+            return mk(c, [sub(NUM)])
+        if c in ("get", "get_str"):
+            vt = NUM if c == "get" else STR
+            fname = r.choice(["a", "b", "zz"])
+            fields = [(("str", n), r.choice([":", "::"]), False, self.gen(vt, env, max(d - 2, 0))) for n in ("a", "b") if r.chance(0.7)]
+            obj = ("obj", [], [], fields)
+            args = [obj, ("str", fname)]
+            if r.chance(0.8) or fname == "zz" or fname not in [f[0][1] for f in fields]:
+                args.append(sub(vt))
+            elif fname in [f[0][1] for f in fields]:
+                pass
+            return mk("get", args)
+        if c == "len_of_arr":
+            g = self.gen_std(r.choice([A_N, A_S]), env, d - 1)
+            return g and ("len", g)
+        if c == "idx_of_arr":
+            g = self.gen_std(A_N, env, d - 1)
+            return g and ("index", ("bin", "+", g, ("arr", [("num", 0)])), ("num", 0))
+        if c in ("startsWith", "endsWith"):
+            return mk(c, [sub(STR), sub(STR)])
+        if c == "isX":
+            t = r.choice([NUM, STR, BOOL, A_N])
+            return mk(r.choice(["isString", "isNumber", "isBoolean", "isArray", "isObject", "isFunction"]), [sub(t)])
+        if c in ("xor", "xnor"):
+            return mk(c, [sub(BOOL), sub(BOOL)])
+        if c in ("equals", "assertEqual"):
+            t = r.choice([NUM, STR, A_N])
+            x = sub(t)
+            return mk(c, [x, x if (c == "assertEqual" and r.chance(0.7)) else sub(t)])
+        if c == "objectHasAll":
+            return mk(c, [self.gen_obj(env, d - 1), ("str", r.choice(["a", "b", "c", "zz"]))])
+        if c == "join":
+            return mk("join", [sub(STR), sub(A_S)])
+        if c == "lines":
+            return mk("lines", [sub(A_S)])
+        if c == "substr":
+            return mk("substr", [sub(STR), small(), small()])
+        if c == "repeat_str":
+            return mk("repeat", [sub(STR), ("num", r.below(4))])
+        if c == "makeArray":
+            cb = self.callback([NUM], NUM, env, d)
+            return cb and mk("makeArray", [small(), cb])
+        if c == "range":
+            lo = r.choice([0, 1, -2, 3])
+            return mk("range", [("num", lo), ("num", lo + r.choice([-2, -1, 0, 1, 3, 4]))])
+        if c == "mapWithIndex":
+            et = r.choice([NUM, STR])
+            cb = self.callback([NUM, et], NUM, env, d)
+            return cb and mk("mapWithIndex", [cb, sub(T_arr(et))])
+        if c == "reverse":
+            return mk("reverse", [sub(ty)])
+        if c == "filterMap":
+            ff, mf = self.callback([NUM], BOOL, env, d), self.callback([NUM], NUM, env, d)
+            return ff and mf and mk("filterMap", [ff, mf, sub(A_N)])
+        if c == "flattenArrays":
+            return mk("flattenArrays", [("arr", [sub(A_N) for _ in range(r.below(4))])])
+        if c == "removeAt":
+            return mk("removeAt", [sub(ty), ("num", r.choice([0, 1, 2, 3, -1, 7]))])
+        if c == "find":
+            return mk("find", [sub(NUM), sub(A_N)])
+        if c == "repeat":
+            return mk("repeat", [sub(ty), ("num", r.below(4))])
+        if c == "slice":
+            part = lambda: ("null",) if r.chance(0.35) else ("num", r.choice([0, 1, 2, 3, -1, -2, 6]))  # noqa
+            step = ("null",) if r.chance(0.5) else ("num", r.choice([1, 2, 3]))
+            return mk("slice", [sub(ty), part(), part(), step])
+        if c == "flatMap":
+            cb = self.callback([NUM], A_N, env, d)
+            return cb and mk("flatMap", [cb, sub(A_N)])
+        if c == "map":
+            et = r.choice([NUM, STR])
+            cb = self.callback([et], NUM, env, d)
+            return cb and mk("map", [cb, sub(T_arr(et))])
+        if c == "map_str":
+            et = r.choice([NUM, STR])
+            cb = self.callback([et], STR, env, d)
+            return cb and mk("map", [cb, sub(T_arr(et))])
+        if c == "filter":
+            cb = self.callback([ty[1]], BOOL, env, d)
+            return cb and mk("filter", [cb, sub(ty)])
+        if c == "stringChars":
+            return mk("stringChars", [sub(STR)])
+        return None
+
+    def _fold_str(self, env, d, mk):
+        r = self.rng
+        et = r.choice([NUM, STR])
+        cb = self.callback([STR, et], STR, env, d)
+        which = r.choice(["foldl", "foldr"])
+        if which == "foldr":
+            cb = self.callback([et, STR], STR, env, d)
+        return cb and mk(which, [cb, self.gen(T_arr(et), env, d - 1), self.gen(STR, env, d - 1)])
+
     def gen_objcomp(self, env, d):
         """{[k]: body for k in [...] if ..}: field names from the loop variable, bodies that see the loop
         variables, the enclosing scope and (late-bound) self"""
@@ -844,6 +1054,8 @@ def instrument(e, counter=None):
                     [(n, v, p, w(b)) for n, v, p, b in x[3]])
         if t in ("stdmap", "stdfilter"):
             return (t, w(x[1]), w(x[2]))
+        if t == "std":
+            return ("std", x[1], [w(y) for y in x[2]], x[3])
         if t == "objcomp":
             return ("objcomp", w(x[1]), w(x[2]),
                     [("for", y[1], w(y[2])) if y[0] == "for" else ("if", w(y[1])) for y in x[3]])
